@@ -462,7 +462,7 @@ func gen(w *kit.Out, r *kit.Rand, tier string) {
 	boundary(w)
 	nh, nm := 90, 20
 	if tier == "thorough" {
-		nh, nm = 900, 150
+		nh, nm = 3000, 500
 	}
 	rh, rm := r.Fork(), r.Fork()
 	for i := 0; i < nh; i++ {
